@@ -5,7 +5,9 @@
 // re-creation of the vm package's test environment, inside worker subprocesses under RLIMIT_AS:
 //   (a) all token sequences of length <= k over a 34-token alphabet in 5 templates (+ one more level over
 //       a 16-token sub-alphabet);  (b) nesting / length ladders for 44 constructs (thorough: N past the parser's 100000 limit);  (c) huge-constant menus;  (d) recursive type/const/var cycle menu + resource-exhaustion menu
-//       (also as realm init code via MsgAddPackage);  (e) every single-token deletion / substitution by each
+//       (also as realm init code via MsgAddPackage);  (f) reference cycles: cycle length x tail length x link pattern x
+//       placement x consumer (println, panic, recover, map key, equality, persistence + reload by MsgCall / queries);
+//       (e) every single-token deletion / substitution by each
 //       alphabet token / duplication of 40 small valid programs.
 // Oracle: outcome in {OK, type-check/validation error, Gno panic, out-of-gas, alloc-limit}. Violations: a Go
 // runtime.Error (raw recovered value seen through a hook in the keeper's doRecover), worker death (Go fatal
@@ -86,6 +88,8 @@ type sched struct {
 	aloneRunning int
 	deadline     time.Time // hard wall deadline for confirmation runs (zero: none)
 	overdue      []string  // case ids whose confirmation run was cut by the deadline
+	skipped      int64     // cycles family: cases not run because a smaller shape of their group killed the worker
+	skippedAfter []string  // ... the cases that did
 }
 
 // next hands out the first runnable chunk; confirmation (alone) chunks are limited to maxAlone at a time.
@@ -137,6 +141,17 @@ func loadKnownKeys(id string) map[string]bool {
 }
 
 func incidentKey(in incident, caseID string) string {
+	if in.kind == "death" && strings.HasPrefix(caseID, "cycle-shape/") {
+		// reference-cycle family: the recursion that overflows runs through several functions, so the frame on
+		// top when the stack limit is hit varies; the key is the link pattern + consumer (all cycle / tail lengths
+		// and placements of that group are listed in the detail)
+		p := strings.Split(caseID, "/")
+		what := in.msg
+		if i := strings.Index(what, ": "); i >= 0 {
+			what = what[i+2:]
+		}
+		return "worker-death: cycle-shape/" + p[1] + "/" + p[len(p)-1] + ": " + what
+	}
 	if in.kind == "death" {
 		return "worker-death" + in.msg // grouped by crash site: a Go fatal error is deterministic
 	}
@@ -324,7 +339,14 @@ func (s *sched) runChunk(w *worker, c chunk) (alive bool) {
 				if cur >= 0 {
 					msg := deathLine(w.errbuf.String(), w.cmd.ProcessState)
 					s.incident(c, cur, "death", msg)
-					if cur+1 < c.to {
+					if cur+1 < c.to && c.fam.Name() == "cycles" && !c.alone {
+						// one (link pattern, consumer) group per chunk, smallest shapes first: the remaining (larger)
+						// shapes of the group would die the same way at 30-60 CPU-s each; they are not run
+						s.mu.Lock()
+						s.skipped += c.to - (cur + 1)
+						s.skippedAfter = append(s.skippedAfter, idOf(c.fam, cur))
+						s.mu.Unlock()
+					} else if cur+1 < c.to {
 						s.pushFront(chunk{fam: c.fam, from: cur + 1, to: c.to})
 					}
 				} else {
@@ -604,8 +626,10 @@ func main() {
 			return 1
 		case name == "menu":
 			return 2
-		case name == "mutations":
+		case name == "cycles":
 			return 3
+		case name == "mutations":
+			return 4
 		case strings.HasPrefix(name, "seq/"):
 			k := 0
 			fmt.Sscanf(name[strings.LastIndex(name, "=")+1:], "%d", &k)
@@ -636,6 +660,8 @@ func main() {
 			step = 1
 		case "consts", "menu":
 			step = 4
+		case "cycles":
+			step = cycleGroupSize(r.Thorough()) // one (link pattern, consumer) group per chunk
 		case "mutations":
 			step = 150
 		}
@@ -743,6 +769,7 @@ func main() {
 		s.runAll(maxAlone, true)
 	}
 	sort.Strings(s.overdue)
+	sort.Strings(s.skippedAfter)
 	unattributed = append(unattributed, s.overdue...)
 	if len(unattributed) > 0 {
 		r.MarkCapped()
@@ -865,11 +892,13 @@ func main() {
 		"Go-level panics that are not runtime.Error (strings/errors thrown by the preprocessor or machine) are NOT flagged; they are listed under review_candidates",
 		"worker memory: parent-enforced 4 GiB resident-set cap (the VM allocator limit is 500 MB of accounted bytes) with RLIMIT_AS 12 GiB as backstop; per-case budget is CPU time of the worker process (not wall clock): 80 s quick / 90 s thorough in a batch (a filter that nominates suspects), suspects are re-run alone in a fresh worker with 160 s quick / 360 s thorough before being reported",
 		"known findings (keys listed for this property in known_findings.jsonl): in the QUICK tier a suspect whose key is already listed is not re-run alone, and the cases with a listed budget key are run on their own under reduced budgets (CPU 10 s, RSS 2 GiB) just to see them run away - they are reported as KNOWN-FINDING on that observation and enumerated in coverage.known_findings_not_reconfirmed; any suspect with an unlisted key still gets the full confirmation run. In the THOROUGH tier listed budget cases are run directly as confirmation runs (fresh worker, 360 s) and every other suspect is confirmed alone; confirmation runs still going at the tier's hard deadline (first-pass budget + 10 min) are cut and listed as unattributed_suspects",
-		"gas limits: 1e7 token sequences, 2e7 mutations, 2e7 menus, 1e8 constants, 3e9 (block maximum) ladders",
+		"gas limits: 1e7 token sequences, 2e7 mutations, 2e7 menus and reference-cycle scripts, 5e7 per message of a reference-cycle realm case, 1e8 constants, 3e9 (block maximum) ladders",
+		"reference-cycle family: a realm case adds the package, commits it to the case's throw-away state and runs each follow-up (MsgCall / qeval / JSON-eval query) in a fresh transaction store on that state; when a case kills the worker the remaining (larger) shapes of its (link pattern, consumer) group are not run (coverage.cycle_cases_skipped_after_a_death_in_their_group), and its death key names pattern and consumer instead of the crash frame",
 	}
-	r.Finish("all token sequences of length <= k over the 34-token alphabet in 5 templates (quick k<=3 + k=4 over 16 tokens; thorough k<=4 + k=5 over 16 tokens); ladders: 44 constructs x 17 sizes up to 2048 (quick) / 27 sizes up to 200000 or 1 MB of source (thorough); constant, cycle and resource menus; all single-token deletions/substitutions/duplications of 40 programs. distinct = distinct (family, index) cases executed",
+	r.Finish("all token sequences of length <= k over the 34-token alphabet in 5 templates (quick k<=3 + k=4 over 16 tokens; thorough k<=4 + k=5 over 16 tokens); ladders: 44 constructs x 17 sizes up to 2048 (quick) / 27 sizes up to 200000 or 1 MB of source (thorough); constant, cycle and resource menus; reference cycles: length 1..9 (thorough 17) x tail 0..3 (thorough 5) x 8 link patterns x 2 placements x 6 consumers; all single-token deletions/substitutions/duplications of 40 programs. distinct = distinct (family, index) cases executed",
 		exhaustive, map[string]any{
 			"families": perFam, "total_cases": total, "executed": executed, "reported_incidents": len(confirmed), "confirmed_alone": len(confirmed) - len(notReconfirmed), "unattributed_suspects": unattributed,
+			"cycle_cases_skipped_after_a_death_in_their_group": s.skipped, "cycle_groups_cut_at": s.skippedAfter,
 			"known_findings_not_reconfirmed": notReconfirmed, "known_budget_cases_run_on_their_own": knownCases,
 			"review_candidates": rev, "alphabet": alphabet, "sub_alphabet": subAlphabet, "cpu_limit_s": s.cpuLimit.Seconds(), "cpu_limit_alone_s": s.aloneCPU.Seconds(),
 		})
